@@ -287,6 +287,9 @@ func (x *Exec) elemRef(st *State, T types.Type, arr, idx *Term) *Term {
 // ---- loads and stores
 
 func (x *Exec) loadStructAt(st *State, m memView, T types.Type, ref *Term) Value {
+	if ref.Sort != SInt {
+		panic(fmt.Sprintf("internal: struct %s loaded at a non-reference term of sort %s: %s\n%s", typeName(T), ref.Sort, ref.String(), debugStack()))
+	}
 	s, _ := isStructType(T)
 	sv := &StructV{T: T}
 	for i := 0; i < s.NumFields(); i++ {
